@@ -56,6 +56,7 @@ pub fn spawn_tftpd(extra: &[&str], ipv6: bool) -> Result<Proc, String> {
         let ip = if ipv6 { "::1" } else { "127.0.0.1" };
         let mut cmd = Command::new(tftpd_path());
         cmd.args(["-i", ip, "-p", &port.to_string(), "-d", &format!("{dir}/srv")]).args(extra).stdin(Stdio::null()).stdout(Stdio::null()).stderr(Stdio::null());
+        die_with_parent(&mut cmd);
         let child = cmd.spawn().map_err(|e| format!("spawn: {e}"))?;
         let addr: SocketAddr = format!("{}:{}", if ipv6 { "[::1]" } else { "127.0.0.1" }, port).parse().unwrap();
         let mut p = Proc { child, addr, dir };
@@ -269,7 +270,11 @@ pub fn cell(spec: &Value) -> Value {
         }
     }
     let mut outcomes: std::collections::BTreeSet<u64> = Default::default();
+    let budget = Budget::new();
     for seq in seqs {
+        if budget.over(&mut c) {
+            break;
+        }
         let r = run_sequence(single, read_only, &seq, &alpha, after);
         c.executions += 1;
         c.states += 1;
